@@ -237,6 +237,14 @@ def tie_fit_emit(ctx, info, val, doc, f, t, sl, reqs, metas):
         replay["step"] = step.to_json()
         prob = open_payload_problem(val, s_) if slice_wf(s_) else "not well-formed"
         replay["payload"] = prob
+        if isinstance(step, ReplaceAroundStep) and not sl.content.child_count:
+            # delete_around_is_move / delete_emits_payloadValid (Props/C11.lean): a deletion's replace-around answer has
+            # insert = 0, gap [to, to.end()), no structure flag; the slice with the gap content in place is a valid payload
+            rt_ = doc.resolve(t)
+            replay["aroundMove"] = (step.insert == 0 and not step.structure and step.gap_from == t and step.gap_to == rt_.end())
+            st2, ins_ = outcome(lambda: s_.insert_at(step.insert, doc.slice(step.gap_from, step.gap_to).content))
+            replay["aroundPayload"] = ("insert_at " + st2) if st2 != "ok" else (
+                None if ins_ is None else (open_payload_problem(val, ins_) if slice_wf(ins_) else "not well-formed"))
         ctx.count("fit emit: payload of the real step " + ("valid" if prob is None else "INVALID"))
     reqs.append({"op": "fitEmit", "s": info.lean_id, "doc": info.node(doc), "from": f, "to": t, "slice": info.slice(sl)})
     metas.append(("fitEmit", replay, exp))
@@ -292,6 +300,12 @@ def check_fit_emit(ctx, replay, out):
             ctx.count("fit emit: hypotheses of delete_emits_valid_payload hold")
             if replay.get("payload") is not None:
                 ctx.mismatch("fitEmit:delete-payload-invalid", replay, None, replay.get("payload"))
+            if "aroundMove" in replay:
+                ctx.count("fit emit: hypotheses of delete_emits_payloadValid hold on a replace-around answer")
+                if replay["aroundMove"] is not True:
+                    ctx.mismatch("fitEmit:delete-around-not-a-move (delete_around_is_move)", replay, True, replay["aroundMove"])
+                if replay.get("aroundPayload") is not None:
+                    ctx.mismatch("fitEmit:delete-around-payload-invalid", replay, None, replay.get("aroundPayload"))
         # insertInline_emits_valid_payload (Props/C11.lean): schema guards detB/fillersOKB/wrapOKB/labelsOKB/leafOkB/textStableC/
         # closableB, valid document with creatable element types, closed slice of valid leaf nodes => the payload of the
         # emitted step is valid; checked on the real step with the independent validator
